@@ -1,6 +1,6 @@
 (* pyasn1/codec/native/encoder.py, pyasn1/codec/native/decoder.py and the `asn1Spec is not None`
    (bare Python value + schema) branches of pyasn1/codec/{ber,cer,der}/encoder.py.
-   The code modelled is the code as repaired by fixes F15 F16 F40 F41 F42 F43 (fixes/*.diff).
+   The code modelled is the code as repaired by fixes F15 F16 F28n F41 F42 F43 (fixes/*.diff).
    Definitions only. *)
 From PV Require Export Model.Types Model.Enc.
 Local Open Scope N_scope.
@@ -118,7 +118,7 @@ Definition real_of_float (f: pyfloat) : res real :=
 (* TYPE_MAP is keyed by typeId, so tags play no part; character and useful string types map to
    OctetStringEncoder (asOctets(): bytes), TextStringEncoder is reachable through TAG_MAP only.
    SEQUENCE/SET: one key per component that is a value - an OPTIONAL component never assigned is
-   left out without being instantiated (F40 repaired), an unassigned DEFAULT component comes out
+   left out without being instantiated (F28n repaired), an unassigned DEFAULT component comes out
    as its default.  A value that does not fit the type is outside the model. *)
 Fixpoint to_native (T: ty) (v: val) {struct T} : res pyval :=
   match T with
